@@ -3,14 +3,14 @@
     sumbool, sumor; no Extract Constant).  N / Z / nat stay the extracted inductive datatypes. *)
 From Coq Require Extraction.
 From Coq Require Import ExtrOcamlBasic.
-From HC Require Import Base.HBytes Model.Tlv8 Model.Storage Model.Framing Model.ConnRead Model.ConnWrite Model.Respond Model.Sessions Model.PlainFrame Model.Charac Model.Hap Gen.CatalogGen Model.Catalog Model.Ids Model.Pin Model.Config Model.TlvStruct Gen.Extracted.
+From HC Require Import Base.HBytes Model.Tlv8 Model.Storage Model.Framing Model.ConnRead Model.ConnWrite Model.Respond Model.Sessions Model.PlainFrame Model.PlainRead Model.Charac Model.Hap Gen.CatalogGen Model.Catalog Model.Ids Model.Pin Model.Config Model.TlvStruct Gen.Extracted.
 Extraction Language OCaml.
 Set Extraction KeepSingleton.
 Separate Extraction
   Z.add Z.mul N.add N.mul N.div N.modulo
   Tlv8.set_bytes Tlv8.set_byte Tlv8.serialise Tlv8.parse Tlv8.get_bytes Tlv8.get_byte
   Storage.st_set Storage.st_get Storage.st_delete Storage.st_keys Storage.entity_key Storage.db_load
-  Storage.db_list Storage.fs_get Storage.multi_ops Storage.apply_ops Storage.set_ops Storage.sanitize Storage.writes_ops Storage.fits Sessions.srun Sessions.empty_table PlainFrame.preads PlainFrame.pst0 PlainFrame.header_end
+  Storage.db_list Storage.fs_get Storage.multi_ops Storage.apply_ops Storage.set_ops Storage.sanitize Storage.writes_ops Storage.fits Sessions.srun Sessions.empty_table PlainFrame.preads PlainFrame.pst0 PlainFrame.header_end PlainRead.wstep PlainRead.winit PlainRead.cread
   Framing.new_server_session Framing.new_client_session Framing.send_all Framing.recv_all
   Framing.decrypt_stream Framing.decrypt_segments Framing.cc_open Framing.cc_seal Framing.spec_wire_from Framing.packets_pinned
   ConnRead.run_reads ConnRead.init_conn
